@@ -174,6 +174,8 @@ class Index:
                 rel = os.path.relpath(path, root)
                 if rel in self.overlay:
                     src = self.overlay[rel]
+                    if src is None:
+                        continue  # the overlay deletes this file
                 else:
                     with open(path, encoding="utf-8") as fh:
                         src = fh.read()
@@ -188,7 +190,7 @@ class Index:
                 self._digest.update(rel.encode())
                 self._digest.update(src.encode())
         for rel in sorted(self.overlay):
-            if not any(m.relpath == rel for m in self.modules.values()):
+            if self.overlay[rel] is not None and not any(m.relpath == rel for m in self.modules.values()):
                 # a module the overlay adds (a change that creates a new file)
                 prefix = os.path.join("src", PKG) + os.sep
                 if not (rel.startswith(prefix) and rel.endswith(".py")):
@@ -204,6 +206,10 @@ class Index:
                 self._digest.update(rel.encode())
                 self._digest.update(self.overlay[rel].encode())
         self._class_cache: Dict[str, ClassInfo] = {}
+        # "public view": (reference home module, function name) -> (module, name) the package's public name resolves to now
+        self.redirect: Dict[Tuple[str, str], Tuple[str, str]] = {}
+        for m in self.modules.values():
+            m.index = self
         for m in self.modules.values():
             for name, defs in m.defs.items():
                 for d in defs:
@@ -325,6 +331,12 @@ class Index:
             if meth not in ci.methods:
                 raise AnchorMissing(f"method {modname}:{fname} not found", site=f"{m.relpath}:{fname}")
             return m, pick_def(ci.methods[meth])
+        if (modname, fname) in self.redirect:
+            m2n, f2 = self.redirect[(modname, fname)]
+            m2 = self.module(m2n)
+            defs2 = [d for d in m2.defs.get(f2, []) if isinstance(d, ast.FunctionDef)]
+            if defs2:
+                return m2, pick_def(defs2)
         defs = [d for d in m.defs.get(fname, []) if isinstance(d, (ast.FunctionDef, ast.AsyncFunctionDef))]
         if not defs:
             # the function may have moved to another module of the package: follow the import, else a unique definition
@@ -405,6 +417,13 @@ class Index:
         table = _HOMES.get("class" if (kind == "func" and "." in name) else kind, {})
         homes = table.get(top, [])
         if len(homes) == 1 and homes[0] != mod and top not in _PINNED_TOP.get("class" if (kind == "func" and "." in name) else kind, {}).get(mod, ()):
+            if self is not None:
+                if self.redirect.get((homes[0], top)) == (mod, top):
+                    return f"{homes[0]}:{name}"
+                hm = self.modules.get(homes[0])
+                if hm is not None and top in hm.defs:
+                    # the reference definition is still at home: this is another definition that merely shares its name
+                    return qual
             return f"{homes[0]}:{name}"
         return qual
 
